@@ -1194,6 +1194,26 @@ fn perturbations(cfg: &Config, w: &World, cdi: &Cdi, cred_data: &CredentialData,
         sb[bit / 8] ^= 1 << (bit % 8);
         *s = ed25519_dalek::Signature::from_bytes(&sb).into();
         out.push(Attempt::cdi("proofs.acc_sig.bitflip", format!("account signature {} bit {bit} flipped", k.0), c));
+        {
+            // the signature keeps its bytes but is relabelled to a key index that is not registered
+            // (order of the map preserved when the highest index moves up)
+            let kmax = *idxs.iter().max().unwrap();
+            if kmax.0 < 255 {
+                let mut c = cdi.clone();
+                let sig = c.proofs.proof_acc_sk.sigs.remove(&kmax).unwrap();
+                let to = KeyIndex(if prng.gen_range(0..2) == 0 { kmax.0 + 1 } else { 255 });
+                c.proofs.proof_acc_sk.sigs.insert(to, sig);
+                out.push(Attempt::cdi("proofs.acc_sig.relabel", format!("account signature {} relabelled to key index {}", kmax.0, to.0), c));
+            }
+            let kmin = *idxs.iter().min().unwrap();
+            let free = (0..=255u8).map(KeyIndex).find(|x| !cdi.values.cred_key_info.keys.contains_key(x) && !idxs.contains(x));
+            if let Some(to) = free {
+                let mut c = cdi.clone();
+                let sig = c.proofs.proof_acc_sk.sigs.remove(&kmin).unwrap();
+                c.proofs.proof_acc_sk.sigs.insert(to, sig);
+                out.push(Attempt::cdi("proofs.acc_sig.relabel", format!("account signature {} relabelled to the unregistered key index {}", kmin.0, to.0), c));
+            }
+        }
         if idxs.len() >= 2 {
             let mut c = cdi.clone();
             c.proofs.proof_acc_sk.sigs.remove(&k);
